@@ -4,6 +4,8 @@ import glob, json, os, re
 rows = []
 for d in sorted(glob.glob('/verif/seeded/C*')):
     pid = os.path.basename(d)
+    if not os.path.isdir(d):
+        continue
     meta = json.load(open(os.path.join(d, 'meta.json'))) if os.path.exists(os.path.join(d, 'meta.json')) else {}
     ev = open(os.path.join(d, 'eval.txt')).read() if os.path.exists(os.path.join(d, 'eval.txt')) else ''
     suite_fail = [l.strip() for l in ev.split('\n') if 'FAILED' in l and 'test result' not in l]
